@@ -135,6 +135,9 @@ func (w *c17world) dialOp(tk []string) (string, bool) {
 		switch o := d.wait("-"); o {
 		case "returned":
 			d.phase = "running"
+			// the peer's side registers the connection once the server's identity has arrived: a message the peer
+			// sends before that would travel over a NEW connection the peer dials — an offer, which is filtered
+			w.awaitPeerSide(d.in)
 			return "launched", true
 		case "closed":
 			d.phase = "closed"
@@ -155,4 +158,12 @@ func (w *c17world) dialOp(tk []string) (string, bool) {
 		return o, true
 	}
 	return "", false
+}
+
+// awaitPeerSide waits until the peer's own router lists its connection with the server.
+func (w *c17world) awaitPeerSide(in *c17inst) {
+	id := w.srv.ServerIdentity.GetID()
+	for i := 0; i < 6000 && in.r.VerifConnCount(id) == 0; i++ {
+		time.Sleep(500 * time.Microsecond)
+	}
 }
